@@ -68,6 +68,39 @@ Theorem C11_global_record : forall op arg name, 0 <= op < 256 -> - 2 ^ 23 <= arg
 Proof. exact global_roundtrip. Qed.
 Print Assumptions C11_global_record.
 
+(* ---- the whole artefact, not only single records ----
+   the `_types` byte string of a generated module (''.join of as_python_bytes over the ops of the type table)
+   has 4 bytes per op, and the loop of ffiobj_init that cuts it into 4-byte words recovers, for EVERY list of
+   encodable ops (any length), the word of each op in order: arg*256+op for CffiOp(op, arg), n for a length *)
+Theorem C11_types_table : forall ops, Forall encodable ops ->
+  exists bs, encode_types ops = Ok bs /\ List.length bs = (4 * List.length ops)%nat /\
+             decode_types bs = map raw_of ops.
+Proof. exact types_table_roundtrip. Qed.
+Print Assumptions C11_types_table.
+
+(* ... and each opcode word splits back into its (op, arg) with _CFFI_GETOP / _CFFI_GETARG *)
+Theorem C11_types_table_entries : forall op arg, 0 <= op < 256 ->
+  getop (raw_of (Op op arg)) = op /\ getarg (raw_of (Op op arg)) = arg.
+Proof. exact raw_splits. Qed.
+Print Assumptions C11_types_table_entries.
+
+(* the `_globals` tuple: every record of the list is read back (any number of globals) *)
+Theorem C11_globals_table : forall gs, Forall global_ok gs ->
+  map (fun b => decode_global (as_c b)) (map (fun g => let '(op, arg, name) := g in encode_global op arg name) gs)
+  = map (fun g => let '(op, arg, name) := g in ((op, arg), name)) gs.
+Proof. exact globals_table_roundtrip. Qed.
+Print Assumptions C11_globals_table.
+
+(* the `_struct_unions` tuple of tuples: every struct/union with all its fields (any number of each) *)
+Theorem C11_struct_unions_table : forall op_noop ss, Forall struct_ok ss ->
+  map (decode_struct_entry op_noop) (map (encode_struct_entry op_noop) ss)
+  = map (fun s => let '(ti, flags, name, fields) := s in
+                  Some ((ti, flags, name),
+                        map (fun f => let '(op, arg, bitsize, fname) := f in
+                                      ((op, arg), (if op =? op_noop then None else Some bitsize), fname)) fields)) ss.
+Proof. exact struct_unions_table_roundtrip. Qed.
+Print Assumptions C11_struct_unions_table.
+
 (* integer constants and enumerators: every value of [-2^63, 2^64) comes back unchanged (LP64) ... *)
 Theorem C11_int_constant : forall v, - 2 ^ 63 <= v < 2 ^ 64 -> decode_int 64 v = v.
 Proof. exact decode_int_correct. Qed.
@@ -96,5 +129,7 @@ Example C11_example :
   as_python_bytes (Op 3 70000) = Ok [1; 17; 112; 3] /\ decode_op [1; 17; 112; 3] = (3, 70000) /\
   as_python_bytes (OpLen 2147483647) = Ok [127; 255; 255; 255] /\
   decode_int 64 (-1) = -1 /\ decode_int 64 (2 ^ 64 - 1) = 2 ^ 64 - 1 /\ decode_int 64 (2 ^ 64) = 0 /\
-  decode_enum (as_c (encode_enum 7 22 [101] [65; 44; 66])) = (7, 22, [101], [65; 44; 66]).
+  decode_enum (as_c (encode_enum 7 22 [101] [65; 44; 66])) = (7, 22, [101], [65; 44; 66]) /\
+  encode_types [Op 5 2; OpLen 16; Op 1 7; Op 11 (-1)] = Ok [0;0;2;5; 0;0;0;16; 0;0;7;1; 255;255;255;11] /\
+  decode_types [0;0;2;5; 0;0;0;16; 0;0;7;1; 255;255;255;11] = [517; 16; 1793; -245].
 Proof. vm_compute. repeat split; reflexivity. Qed.
